@@ -168,6 +168,11 @@ def with_constraints(pm: ProgramModel, ctx: Ctx, mb: ModelBuilder, entry: Any) -
         "equivalence-with-conjunction": [n_(o_("EQUIVALENCE"), n_("B"), n_(o_("AND"), n_("C"), n_("G1")))],
         "equivalence-with-root": [n_(o_("EQUIVALENCE"), n_("C"), n_("R"))],
         "double-negation": [n_(o_("NOT"), n_(o_("NOT"), n_("B")))],
+        # a feature ruled out by a bare negation, in each position: mandatory child of an optional feature (the model is
+        # not void: its parent goes too), member of a group, optional feature with a mandatory child
+        "negated-mandatory-child": [n_(o_("NOT"), n_("B1"))],
+        "negated-group-member": [n_(o_("NOT"), n_("G1"))],
+        "negated-optional-parent": [n_(o_("NOT"), n_("B"))],
     }
     # every binary connective between two optional features, with each side plain or negated
     for opn in ("AND", "OR", "IMPLIES", "REQUIRES", "EXCLUDES", "EQUIVALENCE", "XOR"):
